@@ -660,6 +660,10 @@ def check(model, rep, tier):
   rep.unit('lock order edges', len(edges))
 
   # ---------------------------------------------------------------- dependencies
+  rep.depends('C09', ['IFACE-BIND', 'IFACE-INST'],
+              'one cached factory serves every function with that code and those '
+              'options: the result is the requested function only if instantiate '
+              'binds this request\'s globals, cells, defaults and keyword defaults')
   rep.depends('C20', ['OPT-FIELDS', 'OPT-EQHASH', 'OPT-NORM'],
               'the options value is the cache sub-key: it must compare and hash '
               'over every field')
